@@ -68,6 +68,16 @@ P = {
         "rss_mb": 2500,
         "single_timeout": 240,
     },
+    "C09": {
+        "runs": {"quick": 2000, "thorough": 200000},
+        "budget_s": {"quick": 200, "thorough": 3300},
+        "rule": "one scenario = the hostile inputs of C01 (1-3 services, 1-3 interleaved connections each) ended by client close / reset / half-close / silence / a stalled peer, or a history of N in {1,2,3,10,50,200} sequential connections to one service (incl. FTP PASV/EPSV never connected to), followed by 10 simulated minutes on the fake clock; distinct = distinct trace digest; non-trivial = several connections, a fault, or a history",
+        "components": comp(real=["all 24 director-less services (real handlers)", "timeoutConn 30 s idle deadline", "ftp passive listener (over simnet)"]),
+        "assumptions": ["goroutines are attributed to the run by their synctest bubble id; only goroutines with honeytrap frames are counted", "heap retained per past connection is not asserted"],
+        "stall_s": 60,
+        "rss_mb": 2500,
+        "single_timeout": 240,
+    },
 }
 
 def get(prop):
